@@ -29,7 +29,7 @@ open Fastor Fastor.Matmul Finset
 variable {R : Type} [CommSemiring R]
 
 /-- A kernel whose segments fill the `M × N` grid computes the product and writes nothing else. -/
-theorem kernel_correct (M K N : Nat) (segs : List Seg) (h : Fills N K segs (· < M) (· < N))
+theorem kernel_correct (M K N : Nat) (segs : List Seg) (h : Fills N (Complete K) segs (· < M) (· < N))
     (a b c₀ : Nat → R) :
     (∀ i, i < M → ∀ j, j < N →
       applyWrites (kernelWrites N (val a b K N) segs) c₀ (i * N + j)
@@ -37,11 +37,11 @@ theorem kernel_correct (M K N : Nat) (segs : List Seg) (h : Fills N K segs (· <
     (∀ p, M * N ≤ p → applyWrites (kernelWrites N (val a b K N) segs) c₀ p = c₀ p) := by
   have := kernel_memory M N (val a b K N) (dotSpec a b K N) segs
     (fun s hs e he => by
-      obtain ⟨_, _, hk, hst⟩ := h.inside s hs e he
+      obtain ⟨_, _, _, hk, hst⟩ := h.inside s hs e he
       exact val_final a b K N e hk hst)
     h.ok
     (fun s hs e he => by
-      obtain ⟨hr, hc, _, _⟩ := h.inside s hs e he
+      obtain ⟨hr, hc, _⟩ := h.inside s hs e he
       exact ⟨hr, hc⟩)
     (fun r hr c hc => h.cover r c hr hc)
     c₀
@@ -79,7 +79,7 @@ theorem blocking_pos (cfg : Cfg) (M N V : Nat)
     element size and shape, the segment list produced by the model of `_matmul` fills `M × N`. -/
 theorem kernel_fills (cfg : Cfg) (sz M K N : Nat) (hsz : sz = 4 ∨ sz = 8 ∨ sz = 16) (hN : N < 2 ^ 64)
     (hob : ∀ x, cfg.outerBlock = some x → 0 < x) (hib : ∀ x, cfg.innerBlock = some x → 0 < x) :
-    Fills N K (kernel cfg sz M K N).2.2 (· < M) (· < N) := by
+    Fills N (Complete K) (kernel cfg sz M K N).2.2 (· < M) (· < N) := by
   unfold kernel
   obtain ⟨e, he, hV⟩ := vsize_pow2 cfg sz N hsz
   have hVpos : 0 < cfg.vsize sz N := by rw [hV]; exact Nat.pow_pos (by omega)
